@@ -1,4 +1,5 @@
 mod common;
+mod fam_d;
 mod fam_e;
 mod fam_p;
 mod fam_s;
@@ -29,7 +30,11 @@ fn main() {
         "C01" => props::c01::run(tier),
         "C02" => props::c02::run(tier),
         "C03" => props::c03::run(tier),
+        "C04" => props::c04::run(tier),
+        "C10" => props::c10::run(tier),
         "C14" => props::c14::run(tier),
+        "C15" => props::c15::run(tier),
+        "C16" => props::c16::run(tier),
         other => {
             eprintln!("unknown property {other}");
             2
